@@ -289,24 +289,44 @@ def gen_cfg(rng, mtype, L, thorough):
     # data_config.preprocessing.max_height / max_width: unset, equal to the max_hw argument, or DIFFERENT from it
     # (ModelTrainer hands the labels' maximum to the datasets whatever the config says: finding F180)
     arg = (None, None) if max_none else (maxh, maxw)
+    lab = (max(v["h"] for v in L["videos"]), max(v["w"] for v in L["videos"]))
     r = rng.random()
-    if r < 0.45:
+    if r < 0.3:
         cfg_hw = (None, None)
-    elif r < 0.86:
+    elif r < 0.55:
         cfg_hw = arg
-    else:
-        bh = maxh if not max_none else max(v["h"] for v in L["videos"])
-        bw = maxw if not max_none else max(v["w"] for v in L["videos"])
+    elif r < 0.65:
+        bh = maxh if not max_none else lab[0]
+        bw = maxw if not max_none else lab[1]
         if rng.random() < 0.75:
             cfg_hw = (bh + rng.choice([0, 8, 16, 32, 64]), bw + rng.choice([0, 8, 24, 64]))
         else:
             cfg_hw = (max(24, bh - rng.choice([8, 16])), max(24, bw - rng.choice([0, 8, 16])))
+    else:
+        # PER DIMENSION (round 6): max_height and max_width are resolved separately (`resolve_max` on each), so each
+        # config value is drawn on its own: None / = the argument / = the labels' maximum / larger / smaller; at
+        # least one of the two is None in most of these cases (exactly one set: the other falls back to max_hw)
+        def one(d):
+            base = arg[d] if arg[d] is not None else lab[d]
+            k = rng.random()
+            if k < 0.2:
+                return base
+            if k < 0.3:
+                return lab[d]
+            if k < 0.7:
+                return base + rng.choice([8, 16, 24, 32, 64])
+            return max(24, base - rng.choice([8, 16, 24]))
+        k = rng.random()
+        cfg_hw = (one(0), None) if k < 0.4 else (None, one(1)) if k < 0.8 else (one(0), one(1))
+        # ... and so is the max_hw argument (the datasets' default is (None, None); a None entry = the image's own size)
+        if not max_none and rng.random() < 0.15:
+            arg = (None, maxw) if rng.random() < 0.5 else (maxh, None)
     crop = rng.choice([24, 32, 40, 48, 64, 33, 50])
     crop_hw = (crop, crop) if rng.random() < 0.8 else (crop, rng.choice([24, 32, 48, 56]))
     return {
         "mtype": mtype, "scale": scale, "max_stride": rng.choice([1, 16, 32, 16, 32, 2, 8]),
         "is_rgb": rng.random() < 0.4 or any(fr["style"] == "ramp" for fr in L["frames"]),
-        "user_only": rng.random() < 0.8, "max_hw": (None, None) if max_none else (maxh, maxw),
+        "user_only": rng.random() < 0.8, "max_hw": arg,
         "cfg_hw": cfg_hw,
         "anchor": rng.choice([None] + list(range(n))), "crop_hw": crop_hw,
         "sigma": rng.choice([F(3, 2), F(5, 2), F(1), F(5)]), "stride": rng.choice([1, 2, 2, 4]),
@@ -515,11 +535,20 @@ def run_streaming_real(L, cfg, mods, out_dir, chunk_size):
 
 # ------------------------------------------------------------------ the composed legacy pipelines (pipelines.py)
 def dp_max_hw(L, cfg):
-    """What SizeMatcher is built with: the config's bounds, or (both None) the provider's maximum over videos."""
+    """What SizeMatcher pads to: the config's bounds; both None: the provider's maximum over videos; exactly ONE
+    None: that bound is latched by the FIRST image the reader yields (Pipelines.dp_sizematcher_run,
+    Props.c18_dp_sizematcher_run_step / _latch: every later image sees Some of the first image's size)."""
     c = cfg_hw_of(cfg)
-    if c[0] is not None:
+    if c[0] is None and c[1] is None:
+        return max(v["h"] for v in L["videos"]), max(v["w"] for v in L["videos"])
+    if c[0] is not None and c[1] is not None:
         return c
-    return max(v["h"] for v in L["videos"]), max(v["w"] for v in L["videos"])
+    uo = cfg.get("user_only", True)
+    first = next((fr for fr in L["frames"] if not (uo and not frame_has_user(fr))), None)
+    if first is None:
+        return c
+    v = L["videos"][first["video"]]
+    return (c[0] if c[0] is not None else v["h"], c[1] if c[1] is not None else v["w"])
 
 
 def run_datapipe(L, cfg, mods):
@@ -1550,7 +1579,8 @@ def _check(run, mods, rng, thorough, scratch):
     hazards = 0
     for t, s in (asset_cfgs if thorough else asset_cfgs[:5]):
         cfg = gen_cfg(rng, t, A, thorough)
-        cfg.update(scale=s, max_hw=(384, 384), cfg_hw=(None, None) if len(cases) % 2 else (384, 384),
+        cfg.update(scale=s, max_hw=(384, 384),
+                   cfg_hw=[(384, 384), (None, None), (416, None), (None, 400), (384, None)][len(cases) % 5],
                    crop_hw=(160, 160) if t == "centered" else cfg["crop_hw"])
         cases.append(("asset", {"labels": A, "cfg": cfg}))
     i = 0
@@ -1588,12 +1618,26 @@ def _check(run, mods, rng, thorough, scratch):
         for key in (cfg["mtype"], f"scale={cfg['scale']}", f"max_stride={cfg['max_stride']}", f"rgb={cfg['is_rgb']}",
                     "anchor=None" if cfg["anchor"] is None else "anchor=node", origin.split(":")[0]):
             dist[key] = dist.get(key, 0) + 1
-        for key in ("max_hw=None" if cfg["max_hw"][0] is None else
-                    "max_hw<frame" if any(v["h"] > cfg["max_hw"][0] or v["w"] > cfg["max_hw"][1] for v in c["labels"]["videos"])
+        a_hw, c_hw = tuple(cfg["max_hw"]), cfg_hw_of(cfg)
+        for key in ("max_hw=None" if a_hw == (None, None) else "max_hw=one None" if None in a_hw else
+                    "max_hw<frame" if any(v["h"] > a_hw[0] or v["w"] > a_hw[1] for v in c["labels"]["videos"])
                     else "max_hw>=frames", "dp_domain" if dp_domain(c["labels"], cfg) else "dp_outside_domain",
-                    "cfg_hw=None" if cfg_hw_of(cfg)[0] is None else "cfg_hw=arg" if cfg_hw_of(cfg) == tuple(cfg["max_hw"])
-                    else "cfg_hw!=arg"):
+                    "cfg_hw=None" if c_hw == (None, None) else "cfg_hw=exactly one set" if None in c_hw else
+                    "cfg_hw=arg" if c_hw == a_hw else "cfg_hw!=arg"):
             dist[key] = dist.get(key, 0) + 1
+        if None in c_hw and c_hw != (None, None):
+            # exactly one config bound set: does it CHANGE the size some sample-yielding frame is matched to, compared
+            # with falling back to the max_hw argument in that dimension?  (where a per-dimension rule and any rule
+            # that looks at both config values together can be told apart)
+            d = 0 if c_hw[0] is not None else 1
+            uo = cfg.get("user_only", True)
+            if any(eff_bounds(st_hw(cfg), c["labels"]["videos"][fr["video"]])[d] !=
+                   eff_bounds(a_hw, c["labels"]["videos"][fr["video"]])[d]
+                   for fr in c["labels"]["frames"] if not frame_empty(fr, uo)):
+                key = "cfg_hw=exactly one set, effective (%s, %s)" % (
+                    "height" if d == 0 else "width", cfg["mtype"])
+                dist[key] = dist.get(key, 0) + 1
+                dist["cfg_hw=exactly one set, effective"] = dist.get("cfg_hw=exactly one set, effective", 0) + 1
         for key, on in (("sel_F180", sel_f180(c["labels"], cfg, FX)), ("sel_F181", sel_f181(c["labels"], cfg, FX)),
                         ("sel_F182", sel_f182(c["labels"], cfg))):
             if on:
@@ -1767,6 +1811,11 @@ def _check(run, mods, rng, thorough, scratch):
     run.obligation("correspondence: dp_* / fn_* block models (Coq, vm_compute) == DataPipe blocks and functions "
                    "(sizes, points, centroids, bbox corners)", bdis == 0, f"{bdis} disagreeing blocks")
 
+    n_mixed = dist.get("cfg_hw=exactly one set, effective", 0)
+    run.obligation("generator: max_height / max_width are exercised PER DIMENSION - cases with exactly ONE of the two config "
+                   "values set whose value changes the size a sample-yielding frame is matched to (all frameworks compared "
+                   "on them, model = resolve_max per dimension: Props.c18_bounds_resolved_per_dimension)",
+                   n_mixed >= (60 if thorough else 8), f"{n_mixed} such cases")
     run.coverage.update({
         "input_distribution": dist, "pipeline_cases": len(cases), "samples_per_framework": n_samples,
         "block_cases": n_blocks, "model_disagreements": disagree, "block_model_disagreements": bdis,
@@ -1793,8 +1842,9 @@ def _check(run, mods, rng, thorough, scratch):
     ]
     run.assumptions += [
         "augmentation off (apply_aug=False): with augmentation the samples are random",
-        "every framework is given the SAME data_config (preprocessing.max_height/max_width: unset, equal to, or different "
-        "from the max_hw argument) and the SAME max_hw argument (>= the videos, smaller, or None), as ModelTrainer does; "
+        "every framework is given the SAME data_config (preprocessing.max_height / max_width EACH on its own: unset, equal "
+        "to, larger or smaller than the max_hw argument / the labels' maximum - both set, none, or exactly one) and the "
+        "SAME max_hw argument (>= the videos, smaller, None, or None in one dimension), as ModelTrainer does; "
         "label sets include frames without a non-empty instance and single-instance frames with a predicted instance "
         "(known findings F180 / F181 / F182 are reported through their selectors)",
         "scales are dyadic rationals; inputs where float64 round(h*ratio) could differ from exact arithmetic are skipped",
